@@ -225,6 +225,22 @@ def heater_records(cfg, log, rng, recs, meta, loop=None, hraws=()):
             rec = {"kind": "unit", "label": label, "symbol": f"raised:{type(e).__name__}", "min": 0, "max": 0}
         recs.append(rec)
         meta.append((name, {"unit_index": idx}))
+    # what the heater PRESENTS: each of its three readings is the stored reading of its own item (the other two items
+    # hold different words), in both units
+    for unit in ("C", "F"):
+        _set_unit(st, unit)
+        for getter, key in (("current_temperature", "DisplayedTempG"), ("target_temperature", "SetpointG"),
+                            ("real_target_temperature", "RealSetPointG")):
+            for raw in (0, 1, 17, 18, 320, 684, 1023, 65535):
+                for k2 in ("DisplayedTempG", "SetpointG", "RealSetPointG"):
+                    _set_field(st, acc[k2], raw if k2 == key else (raw * 5 + 611) % 65536)
+                try:
+                    n_, d_ = _frac(getattr(heater, getter))
+                    recs.append({"kind": "read", "raw": raw, "unit": unit, "num": n_, "den": d_})
+                except Exception as e:  # noqa
+                    recs.append({"kind": "read", "raw": raw, "unit": unit, "num": -1, "den": 1})
+                meta.append((name, {"getter": getter}))
+    _set_field(st, acc["SetpointG"], 684)
     # operation ladder
     flags = []
     for key in ("Heating", "CoolingDown"):
@@ -238,7 +254,7 @@ def heater_records(cfg, log, rng, recs, meta, loop=None, hraws=()):
         _set_unit(st, unit)
         for hv in flags[0][2]:
             for cv in flags[1][2]:
-                for cur, real in ((500, 600), (600, 500), (555, 555), (0, 1), (65535, 65534)):
+                for cur, real in ((500, 600), (600, 500), (555, 555), (0, 1), (65535, 65534), (600, 0), (0, 0), (700, 0)):
                     for (key, a, _), v in zip(flags, (hv, cv)):
                         if a is not None:
                             w = int.from_bytes(st.status_block[a.pos:a.pos + a.length], "big")
